@@ -456,7 +456,42 @@ func ruleC11Wake(c *Ctx) {
 		if len(inserts) == 0 || !lm.LocallyHeld(inserts[0]).has(lm.DB) {
 			continue
 		}
-		// how does fn release the lock?
+		// how does fn release the lock? Through the waking wrapper — called or deferred directly, or from a function
+		// (a deferred closure, a small helper) every releasing call of which goes through the waking wrapper
+		var releasesOnlyThroughWake func(g *ssa.Function, d int) bool
+		releasesOnlyThroughWake = func(g *ssa.Function, d int) bool {
+			if a.wakeRel[g] {
+				return true
+			}
+			if d > 2 || g.Blocks == nil {
+				return false
+			}
+			n := 0
+			for _, in2 := range instrsOf(g) {
+				var c2 ssa.CallInstruction
+				switch x := in2.(type) {
+				case *ssa.Defer:
+					c2 = x
+				case *ssa.Call:
+					c2 = x
+				default:
+					continue
+				}
+				h := c2.Common().StaticCallee()
+				if h == nil {
+					continue
+				}
+				hl := lm.fl[h]
+				if hl == nil || !(hl.removes.has(lm.DB) || hl.condRemoves.has(lm.DB)) {
+					continue
+				}
+				n++
+				if !releasesOnlyThroughWake(h, d+1) {
+					return false
+				}
+			}
+			return n > 0
+		}
 		viaWake := false
 		plain := false
 		for _, in := range instrsOf(fn) {
@@ -477,7 +512,7 @@ func ruleC11Wake(c *Ctx) {
 			if fl == nil || !(fl.removes.has(lm.DB) || fl.condRemoves.has(lm.DB)) {
 				continue
 			}
-			if a.wakeRel[g] {
+			if releasesOnlyThroughWake(g, 0) {
 				viaWake = true
 			} else {
 				plain = true
